@@ -30,7 +30,14 @@ class C03(Check):
                 descs.append(("tx", G.tx_desc(rng, **sh), "empty-ring"))
         for sh in G.big_count_shapes():
             descs.append(("tx", G.tx_desc(rng, **sh), "big-count"))
-        descs.append(("block", G.block_desc(rng, 16384), "block-16384-hashes"))
+        descs.append(("tx", G.tx_desc(rng, 2, ["gen"], 1, [False], 0, extra_len=65537), "over-2^16"))
+        if thorough:
+            descs.append(("tx", G.tx_desc(rng, 1, ["key"], 65537, [True], 0, extra_len=0), "over-2^16"))
+            descs.append(("block", G.block_desc(rng, 65537), "over-2^16"))
+        if thorough:
+            descs.append(("block", G.block_desc(rng, 16384), "block-16384-hashes"))
+        else:
+            descs.append(("block", G.block_desc(rng, 300), "block-300-hashes"))
         for _ in range(800 if not thorough else 12000):
             sh = G.random_shape(rng, small=True)
             descs.append(("tx", G.tx_desc(rng, **sh), "random-type%d" % sh["rct_type"]))
